@@ -91,3 +91,16 @@ func fnv64(parts ...[]byte) uint64 {
 	}
 	return h
 }
+
+// Sparse returns n bytes that are v with probability 1/v and zero otherwise: the sum over any window
+// of 65536 bytes hovers around 65536.
+func Sparse(seed uint64, n int, v int) []byte {
+	r := NewRng(seed)
+	p := make([]byte, n)
+	for i := range p {
+		if r.Intn(v) == 0 {
+			p[i] = byte(v)
+		}
+	}
+	return p
+}
